@@ -84,7 +84,8 @@ OPS = {c: ops_for(c) for c in CLASSES}          # core alphabet: exhaustive to l
 # extended alphabet (exhaustive to length 2, random beyond): a numpy-scalar sampling frequency, reads of the
 # frequency axis, and the caller changing *its own* array in place, with and without re-assigning it
 EXTRA = [["set", "sampling", "np64:4.0"], ["freq"], ["mutate"], ["mutate_set"],
-         ["bad", "NFFT", 0], ["bad", "NFFT", -4], ["bad", "NFFT", 12.5], ["bad", "sides", "dummy"]]
+         ["bad", "NFFT", 0], ["bad", "NFFT", -4], ["bad", "NFFT", 12.5], ["bad", "sides", "dummy"],
+         ["conv", "twosided"], ["conv", "centerdc"], ["conv", "onesided"]]
 OPS_EXT = {c: OPS[c] + EXTRA for c in CLASSES}
 
 
@@ -246,6 +247,13 @@ def run_history(cls, d0, hist):
                     else:
                         ch = old != new
                     changed_after = changed_after or ch
+            elif kind == "conv":
+                # a pure read through get_converted_psd: returns another layout, must leave the object as it is
+                computed = True
+                try:
+                    _ = p.get_converted_psd(op[1])
+                except AssertionError:
+                    pass        # documented refusal (one-sided for complex data)
             elif kind == "bad":
                 # an assignment the class documents as invalid, caught by the caller.  Nothing is claimed about the call itself
                 # (if it is accepted the rest of the history is outside the model); if it is rejected, the object must still be
@@ -294,7 +302,7 @@ def culprit(hist):
     for op in reversed(hist):
         if op[0] in ("set", "reassign", "bad"):
             return "%s:%s" % (op[0], op[1])
-        if op[0] in ("mutate", "mutate_set", "freq"):
+        if op[0] in ("mutate", "mutate_set", "freq", "conv"):
             return op[0]
     return "none"
 
